@@ -299,7 +299,7 @@ def main(chk, tier, seed):
     chk.assumptions = ["verdicts on the logical clock only; a wall-clock watchdog firing is inconclusive",
                        "a sender computation is used by one producer thread (computations are single threaded)"]
     n = 96 if tier == "quick" else 2400
-    common.run_chunked(chk, "c18", n, nchunks=16 if tier == "quick" else 48, job_extra={"lines": tier == "thorough"}, timeout=3000)
+    common.run_chunked(chk, "c18", n, nchunks=16 if tier == "quick" else 48, job_extra={"lines": tier == "thorough"}, timeout=600 if tier == "quick" else 3000)
     chk.inconclusive_if(chk.counters.get("messages_deferred", 0) < 20, "late registration hardly exercised")
     chk.inconclusive_if(chk.counters.get("mixed_backlog_dequeues", 0) < 20, "priority ordering hardly observable (no mixed backlog)")
 
